@@ -1911,6 +1911,8 @@ static int delcols_work (
 			qslp->colnames[j] = qslp->colnames[i];
 			if (qslp->intmarker)
 				qslp->intmarker[j] = qslp->intmarker[i];
+			if (qslp->is_sos_mem)
+				qslp->is_sos_mem[j] = qslp->is_sos_mem[i];
 			j++;
 		}
 		else
@@ -2377,6 +2379,13 @@ int EGLPNUM_TYPENAME_ILLlib_addcol (
 			//                                 sizeof (char));
 			//CHECKRVALG(rval,CLEANUP);
 		}
+		if (qslp->is_sos_mem)
+		{
+			/* the MPS writer looks every structural column up in this array */
+			qslp->is_sos_mem = EGrealloc (qslp->is_sos_mem,
+																		sizeof (int) * (qslp->structsize +
+																										EXTRA_COLS));
+		}
 		qslp->structsize += EXTRA_COLS;
 	}
 
@@ -2385,6 +2394,10 @@ int EGLPNUM_TYPENAME_ILLlib_addcol (
 	{
 		/* NOTE: If we want to add integer variables, this is the place. */
 		qslp->intmarker[qslp->nstruct] = (char) 0;
+	}
+	if (qslp->is_sos_mem)
+	{
+		qslp->is_sos_mem[qslp->nstruct] = -1;
 	}
 
 	ILL_FAILtrue (qslp->colnames == NULL, "must always be non NULL");
